@@ -25,6 +25,11 @@ ENUMERATORS = ["Off", "On", "Idle", "Run", "Fault", "Init", "Ready", "Busy", "Lo
                "Open", "Closed", "Left", "Right", "Up", "Down"]
 
 
+def _is_cname(x: str) -> bool:
+    import re
+    return re.fullmatch(r"[A-Za-z_][A-Za-z_0-9]*", x) is not None      # the grammar's CNAME is ASCII only
+
+
 def tstr(t) -> str:
     k = t[0]
     if k == "u":
@@ -52,6 +57,8 @@ def vstr(v) -> str:
     if isinstance(v, str):
         return '"' + v + '"'
     if isinstance(v, dict):
+        if "num" in v:
+            return v["text"]          # a number written in another legal spelling (015, +15)
         return v["ident"]
     if isinstance(v, list):
         return "[" + ", ".join(vstr(x) for x in v) + "]"
@@ -69,7 +76,21 @@ def render_decl(d, style: int = 0) -> str:
         for f in d["fields"]:
             s = f"{ind}{f['name']} @{f['id']}: {tstr(f['type'])}"
             if f.get("unit") is not None:
-                s += f' | unit("{f["unit"]}")'
+                u = f["unit"]
+                form = (style // 2) % 4
+                if form == 1:
+                    s += f' | unit "{u}"'                 # the grammar makes the parentheses optional
+                elif form == 2 and _is_cname(u):
+                    s += f" | unit({u})"                  # an identifier argument is the same value
+                elif form == 3 and _is_cname(u):
+                    if f.get("range") is not None:
+                        # paren-less parameter after one that was closed by ')' : | range(0.0, 1.5) | unit C
+                        s += f" | range({vstr(f['range'][0])}, {vstr(f['range'][1])})"
+                    s += f" | unit {u}"
+                    out.append(s + ",\n")
+                    continue
+                else:
+                    s += f' | unit("{u}")'
             if f.get("range") is not None:
                 s += f" | range({vstr(f['range'][0])}, {vstr(f['range'][1])})"
             out.append(s + ",\n")
